@@ -224,10 +224,15 @@ class PageCache(Entity):
         Returns the number of pages flushed.
         """
         flushed = 0
-        for page in self._pages.values():
-            if page.dirty:
-                yield self._disk_write_latency_s
+        # Iterate over a snapshot: the cache may be read, written or evicted
+        # from while this flush is suspended on a write-back.
+        for page in list(self._pages.values()):
+            if page.dirty and self._pages.get(page.page_id) is page:
+                # Clear the flag before suspending: the content being written
+                # is the content as of now, so a write that lands during the
+                # write-back must leave the page dirty.
                 page.dirty = False
+                yield self._disk_write_latency_s
                 self._dirty_writebacks += 1
                 flushed += 1
         return flushed
